@@ -60,10 +60,11 @@ RECURSIVE Eval(_, _, _)
 Eval(e, env, st) ==
   CASE e.k = "num" -> Good(e.v)
     [] e.k = "fl"  -> LET g == <<e.f, Args(e.a, env)>>
-                      IN  IF g \in DOMAIN st.fl THEN Good(st.fl[g]) ELSE Bad
+                      IN  IF g \in DOMAIN st.fl /\ ~TooBig(st.fl[g]) THEN Good(st.fl[g]) ELSE Bad
     [] e.k = "bin" -> LET x == Eval(e.l, env, st)
                           y == Eval(e.r, env, st)
                       IN  IF ~x.ok \/ ~y.ok THEN Bad
+                          ELSE IF TooBig(x.v) \/ TooBig(y.v) THEN Bad
                           ELSE IF e.op = "/" /\ RIsZero(y.v) THEN Bad
                           ELSE Good(RBin(e.op, x.v, y.v))
 
@@ -76,7 +77,7 @@ OrSet(S)  == IF "T" \in S THEN "T" ELSE IF "U" \in S THEN "U" ELSE "F"
 B3(b) == IF b THEN "T" ELSE "F"
 
 Cmp3(op, x, y, eps) ==
-  IF ~x.ok \/ ~y.ok THEN "U"
+  IF ~x.ok \/ ~y.ok \/ TooBig(x.v) \/ TooBig(y.v) THEN "U"
   ELSE LET S == CmpTolSet(op, x.v, y.v, eps)
        IN  IF S = BOOLEAN THEN "U" ELSE B3(TRUE \in S)
 
@@ -135,6 +136,7 @@ NewVal(x, rd, old) ==
   IN  IF ~rhs.ok THEN Bad
       ELSE IF x[1].op = "assign" THEN rhs
       ELSE IF t \notin DOMAIN old.fl THEN Bad
+      ELSE IF TooBig(old.fl[t]) \/ TooBig(rhs.v) THEN Bad
       ELSE IF x[1].op = "increase" THEN Good(RAdd(old.fl[t], rhs.v))
       ELSE Good(RSub(old.fl[t], rhs.v))
 
